@@ -64,10 +64,20 @@ def currentDefmId (s : Scopes) : Option Nat := s.scopes.findSome? Scope.defmId
 
 /-- the `current_scope.name_to_variable.insert(name, id)` half of `Scopes::add_variable`;
 `none` = `expect("scope is empty")` fails -/
-def insertVariable (s : Scopes) (name : String) (id : Nat) : Option Scopes :=
-  match s.scopes with
+def isDefsetKind : ScopeKind → Bool
+  | .defset _ => true
+  | _ => false
+
+/-- insert into the innermost scope that is not a defset scope (a defset opens no scope of its own);
+`none` = `expect("scope is empty")` fails -/
+def insertVariableGo (name : String) (id : Nat) : List Scope → Option (List Scope)
   | [] => none
-  | sc :: rest => some { scopes := { sc with nameToVariable := sc.nameToVariable.insert name id } :: rest }
+  | sc :: rest =>
+    if isDefsetKind sc.kind then (insertVariableGo name id rest).map (sc :: ·)
+    else some ({ sc with nameToVariable := sc.nameToVariable.insert name id } :: rest)
+
+def insertVariable (s : Scopes) (name : String) (id : Nat) : Option Scopes :=
+  (insertVariableGo name id s.scopes).map fun l => { scopes := l }
 
 /-- `Scopes::find_local` -/
 def findLocal (s : Scopes) (sm : SymMap) (name : String) : Option SymbolId :=
